@@ -27,17 +27,18 @@ REQUIRED = ['codec_roundtrip', 'codec_reserialize_stable', 'to_from_dict_roundtr
             'representable_serializable', 'codec_save_or_faithful', 'codec_faithful_iff_serializable', 'codec_set_reloads',
             'codec_reserved_key_reloads', 'codec_reserved_callable_reloads',
             'blt_roundtrip', 'blt_parse_total', 'blt_loaded_indices_valid', 'blt_former_foreign_errors',
-            'Stv.stv_nicks_distinct', 'Stv.stv_roundtrip', 'Stv.stv_error_kinds', 'Stv.stv_nick_end_witness', 'Stv.stv_empty_ballot_witness',
+            'Stv.stv_nicks_distinct', 'Stv.stv_roundtrip', 'Stv.stv_header_roundtrip', 'Stv.stv_error_kinds', 'Stv.stv_header_foreign_witness', 'Stv.stv_nick_end_witness', 'Stv.stv_empty_ballot_witness',
             'Stv.stv_roundtrip_unconditional_witness']
 REQUIRED_COUNTERS = ['codec_frac', 'codec_dec', 'codec_tuple', 'codec_fset', 'codec_sdict', 'codec_gdict', 'codec_obj', 'codec_callable',
                      'codec_depth_4', 'unrepresentable', 'codec_plain_set', 'codec_reserved_key',
-                     'class_rt', 'class_bad', 'class_signatures', 'cls_depth_4', 'feat_fraction', 'feat_decimal', 'feat_callable_by_name', 'feat_dict_keyed',
+                     'class_rt', 'class_bad', 'class_signatures', 'class_sensitive', 'sens_LargestRemainder_accept_equal',
+                     'sens_LargestRemainder_on_overaward', 'cls_depth_4', 'feat_fraction', 'feat_decimal', 'feat_callable_by_name', 'feat_dict_keyed',
                      'blt_rt', 'blt_withdrawn', 'blt_withdrawn_first', 'blt_one_candidate', 'blt_title', 'blt_weight_int',
                      'blt_weight_dec', 'blt_weight_frac', 'blt_weight_proper_fraction', 'blt_person', 'blt_strname', 'blt_empty_ballot',
                      'blt_text', 'mut_truncate_chars', 'mut_truncate_lines', 'mut_junk_token', 'mut_index_out_of_range',
                      'mut_zero_inside', 'mut_handmade',
-                     'stv_rt', 'stv_blt_mode', 'stv_own_mode', 'stv_duplicate_initials', 'stv_many_candidates', 'stv_withdrawn', 'stv_weight_frac', 'stv_weight_dec',
-                     'stv_text', 'mut_header_junk']
+                     'stv_rt', 'stv_blt_mode', 'stv_own_mode', 'stv_duplicate_initials', 'stv_many_candidates', 'stv_weight_below_one', 'stv_withdrawn', 'stv_weight_frac', 'stv_weight_dec',
+                     'stv_text', 'mut_header_junk', 'stv_quota_registry', 'stv_header_directed']
 RULE = ('codec: random value trees of depth <= 4 over atoms (None/bool/int up to 10^30/float/str incl. unicode and identifier-like), '
         'Fraction, Decimal, list, tuple, frozenset, str-keyed and general dicts, objects (Person, PoliticalParty, NoneOfTheAbove, '
         'AbsoluteThreshold) and callables by name; plus directed streams: an unrepresentable leaf (closure, lambda, same-named local def, '
@@ -63,11 +64,15 @@ NOT_VERIFIED = ['lexing of BLT/STV text (strip, split, "#" comments, quotes, str
                 'WFval (hypothesis of codec_save_or_faithful) lists invariants of live Python values plus one signature fact — no constructor '
                 'parameter named type/class/callable — which the harness asserts by reflection on every run (op class_sig)',
                 'frozenset iteration order (compared order-free)',
-                'STV: only the candidate / ballot section (nicknames, candidate lines, ballots=, unordered ballot lines, end) is modelled, at token '
-                'level; the system header (_dump_system / _create_system), the ordered format and name_to_initials (regex, str.lower) are not — '
-                'candidates come with their initials; math.log in the ordinal nickname length is modelled as the least k with 26^k >= n']
+                'STV: the system header (_dump_system / _create_system: title, method, quota, seats, random), nicknames, candidate lines, ballots=, '
+                'unordered ballot lines and end are modelled at token level; BLT mode inside STV, the ordered format (order=) and name_to_initials '
+                '(regex, str.lower) are not — candidates come with their initials, header values with their isdigit()/int() classification; '
+                'math.log in the ordinal nickname length is modelled as the least k with 26^k >= n; the objects _create_evaluator builds are '
+                'summarised as (title, seats, quota, mandatory, tie-break) and compared with the loaded system through that summary only; '
+                'lexing hazards of header text (#, edge whitespace in title / names) are outside the token model (open STV findings)']
 UNPROVED = [            'stv_parse_total (false of the current reader: ValueError / ZeroDivisionError / TypeError ...; Stv.stv_error_kinds holds for the section)',
-            'stv_roundtrip for the system header (title, seats): oracle only']
+            'stv_roundtrip holds for systems of the shape VotingSystem?(FixedSeatCount?(TieBreaking?(TransferableVoteSelector))) only; other '
+            'evaluator trees (which _dump_system silently writes partially or refuses) are covered by the correspondence of dumpSys, not by a theorem']
 EXHAUSTIVE = {'thorough': True}
 
 # ------------------------------------------------------------------------------------------------ guards
@@ -232,6 +237,7 @@ def _impl_class(case):
         return {'save': d}
     out = {'save': 'ok'}
     seed = case.get('seed', 0)
+    n_in = case.get('n_inputs', 6)
     det = KL.is_deterministic(case['spec'])
     y = _g(lambda: P.from_dict(d))
     out['d'] = _g(lambda: CC.j_of_py(d))
@@ -254,20 +260,20 @@ def _impl_class(case):
             d3 = _g(lambda: P.to_dict(y2))
             out['json_d_eq'] = (not _is_err(d3)) and json.dumps(d3) == txt
     if det and not case.get('bad'):
-        o0 = _g(lambda: KL.outcomes(obj, seed), 30)
+        o0 = _g(lambda: KL.outcomes(obj, seed, n_in), 30)
         out['n_ok_outcomes'] = 0 if _is_err(o0) else sum(1 for o in o0 if not _is_err(o))
 
         def differs(other):
             """outcomes of the reloaded copy differ from the original's, reproducibly (an evaluation that depends on the
             iteration order of id-hashed objects is not reproducible even on the original: no C19 matter)"""
-            o1 = _g(lambda: KL.outcomes(other, seed), 30)
+            o1 = _g(lambda: KL.outcomes(other, seed, n_in), 30)
             if o1 == o0:
                 return None
             for _ in range(2):
-                if _g(lambda: KL.outcomes(obj, seed), 30) != o0:
+                if _g(lambda: KL.outcomes(obj, seed, n_in), 30) != o0:
                     out['unstable_original'] = True
                     return None
-                if _g(lambda: KL.outcomes(other, seed), 30) == o0:
+                if _g(lambda: KL.outcomes(other, seed, n_in), 30) == o0:
                     out['unstable_original'] = True
                     return None
             return _first_diff(o0, o1)
@@ -374,9 +380,24 @@ def _oracle_class_sig(case, obs):
     return [('reserved_param_name', str(obs['reserved_params']))] if obs['reserved_params'] else []
 
 
+def _gen_sensitive():
+    """one witness per (class, optional constructor parameter): a spec with the parameter set and an input seed on which
+    the outcome differs from the same object with the parameter at its default (table: c19_sensitivity.json, rebuilt
+    with `python harness/props/c19_sensitivity.py --rebuild`).  A to_dict that drops the parameter reloads the default;
+    the outcome comparison on exactly this case then fails.  Whether each witness still distinguishes is re-measured."""
+    import props.c19_classes as KL
+    import props.c19_sensitivity as SE
+    for w in SE.load()['found']:
+        short = w['cls'].rsplit('.', 1)[1]
+        ok = SE.distinguishes(KL, w['spec'], w['param'], w['seed'])
+        tags = ['class_rt', 'class_sensitive', f"sens_{short}_{w['param']}"] if ok else ['class_rt', 'sens_lost']
+        yield {'op': 'class_rt', 'spec': w['spec'], 'seed': w['seed'], 'n_inputs': SE.N_INPUTS, '_tags': tags}
+
+
 def _gen_class(rng, n, n_bad):
     import props.c19_classes as KL
     yield {'op': 'class_sig', '_tags': ['class_signatures']}
+    yield from _gen_sensitive()
     cov = KL.covered()
     order = list(cov)
     rng.shuffle(order)
@@ -504,6 +525,8 @@ def _tag_doc(c, pre):
         t.append(pre + '_strname')
     if any(not idx for idx, _ in d['ballots']):
         t.append(pre + '_empty_ballot')
+    if any(IO.weight_py(w) < 1 for _, w in d['ballots']):
+        t.append(pre + '_weight_below_one')
     for h in _haz_rt(c):
         t.append('hazard_' + h)
 
@@ -590,6 +613,34 @@ def _build_system(sysd, doc):
     return ev
 
 
+def _stv_summary(system):
+    """title, seats, quota, mandatory flag and tie-break setting of a loaded system (what the model's Summary holds)"""
+    import votelib.evaluate
+    import votelib.evaluate.auxiliary as aux
+    import votelib.component.quota as vq
+    from votelib.evaluate.sequential import TransferableVoteSelector
+    out = {'title': system.name, 'seats': None, 'quota': None, 'mandatory': None, 'random': None}
+    ev = system.evaluator
+    for _ in range(6):
+        if isinstance(ev, votelib.evaluate.FixedSeatCount):
+            out['seats'] = str(ev.n_seats)
+            ev = ev.evaluator
+        elif isinstance(ev, votelib.evaluate.TieBreaking):
+            tb = ev.tiebreaker
+            tb = getattr(tb, 'evaluator', tb)
+            out['random'] = str(tb.seed) if isinstance(tb, aux.Sortitor) else 'non'
+            ev = ev.main
+        elif isinstance(ev, TransferableVoteSelector):
+            qf = ev._inner.quota_function
+            name = getattr(qf, '__name__', None)
+            out['quota'] = {'name': name} if name in vq.QUOTAS and vq.QUOTAS[name] is qf else {'const': str(qf.quota)}
+            out['mandatory'] = bool(ev._inner.mandatory_quota)
+            break
+        else:
+            return None
+    return out
+
+
 def _stv_loaded(votes, system, cands):
     import votelib.evaluate
     ev = system.evaluator
@@ -601,7 +652,9 @@ def _stv_loaded(votes, system, cands):
         ev = getattr(ev, 'evaluator', None) or getattr(ev, 'main', None)
         if ev is None:
             break
-    return IO.doc_of_loaded(dict(votes), seats, cands, system.name)
+    doc = IO.doc_of_loaded(dict(votes), seats, cands, system.name)
+    doc['system'] = _stv_summary(system)
+    return doc
 
 
 def _impl_stv_rt(case):
@@ -693,11 +746,23 @@ def _oracle_stv_rt(case, obs):
 def _model_stv_rt(case):
     if case.get('sys') is None:
         return None                      # BLT mode: the content is the BLT model's business (blt_rt)
-    if _haz_stv(case) & {'name_hash', 'name_ws_edge', 'name_blank', 'name_no_initials'}:
-        return None                      # the written candidate line does not lex back to (nick, name): outside the token model
-    d = case['doc']
-    return {'op': 'stv_dump', 'doc': {'cands': [[n, bool(w), IO.stv_initials(n)] for n, w, _ in d['cands']],
-                                      'ballots': [[idx, IO.stv_weight_model(w)] for idx, w in d['ballots']]}}
+    if _haz_stv(case) & {'name_hash', 'name_ws_edge', 'name_blank', 'name_no_initials', 'title_hash', 'title_ws_edge'}:
+        return None                      # the written line does not lex back to what was written: outside the token model
+    d, sysd = case['doc'], case['sys']
+    tree = {'tv': [True, True, True], 'quota': sysd.get('quota', 'droop'), 'mandatory': bool(sysd.get('mandatory'))}
+    rnd = sysd.get('random')
+    if rnd is not None:
+        tree = {'tie': tree, 'tb': {'pre': True, 'inner': 'order' if rnd == 'non' else {'sortitor': int(rnd)}}}
+    if sysd.get('seats') == 'fixed':
+        tree = {'fixed': d['seats'], 'e': tree}
+    if sysd.get('wrap', True):
+        tree = {'voting': IO.stv_sval(str(d.get('title'))), 'e': tree}
+    line = {'op': 'stv_dump', 'sys': tree,
+            'doc': {'cands': [[n, bool(w), IO.stv_initials(n)] for n, w, _ in d['cands']],
+                    'ballots': [[idx, IO.stv_weight_model(w)] for idx, w in d['ballots']]}}
+    if sysd.get('seats') == 'arg':
+        line['seats_arg'] = d['seats']
+    return line
 
 
 def _strip_trailing_blank(lines):
@@ -710,7 +775,7 @@ def _strip_trailing_blank(lines):
 def _stv_section(loaded):
     if _is_err(loaded):
         return loaded
-    return {'cands': loaded['cands'], 'ballots': loaded['ballots']}
+    return {'cands': loaded['cands'], 'ballots': loaded['ballots'], 'system': loaded.get('system')}
 
 
 def _compare_stv_rt(case, iobs, mobs):
@@ -719,7 +784,9 @@ def _compare_stv_rt(case, iobs, mobs):
     tk = IO.stv_tokenise(iobs['text'])
     if tk is None:
         return None
-    hdr = [h for h in tk[0] if h is not None and not (isinstance(h, dict) and 'other' in h)]
+    if 'dump' in mobs:
+        return f"dump: impl writes a file, model raises {mobs['dump']}"
+    hdr = [h for h in tk[0] if h is not None]
     if hdr != mobs['hdr']:
         return f"header lines: impl={json.dumps(hdr)[:300]} model={json.dumps(mobs['hdr'])[:300]}"
     if _strip_trailing_blank(tk[1]) != mobs['votes']:
@@ -731,7 +798,7 @@ def _compare_stv_rt(case, iobs, mobs):
 
 def _model_stv_text(case):
     tk = IO.stv_tokenise(case['text'])
-    if tk is None or not IO.stv_system_ok(tk[0]):
+    if tk is None:
         return None
     return {'op': 'stv_load', 'hdr': tk[0], 'votes': tk[1]}
 
@@ -760,8 +827,22 @@ def _gen_stv_many(rng):
         yield c
 
 
+def _gen_stv_below_one(rng):
+    """weights below 1 (and 0) in the own format: the multiplier must be written for every weight other than 1"""
+    sysd = {'quota': 'droop', 'mandatory': False, 'random': None, 'seats': 'fixed', 'wrap': True}
+    for ws in ([{'k': 'frac', 'v': '1/2'}, {'k': 'int', 'v': '2'}], [{'k': 'dec', 'v': '0.25'}, {'k': 'dec', 'v': '4.25'}],
+               [{'k': 'int', 'v': '0'}, {'k': 'frac', 'v': '7/3'}], [{'k': 'frac', 'v': '99/100'}, {'k': 'int', 'v': '1'}]):
+        doc = {'seats': 1, 'cands': [['Ann Alba', False, 'str'], ['Bob Bell', False, 'str'], ['Cy Cole', False, 'person']],
+               'ballots': [[[1, 0], ws[0]], [[0, 2], ws[1]], [[2], {'k': 'int', 'v': '3'}]], 'title': 'Below one'}
+        c = {'op': 'stv_rt', 'doc': doc, 'sys': dict(sysd), '_tags': []}
+        _tag_doc(c, 'stv')
+        c['_tags'] += ['stv_own_mode']
+        yield c
+
+
 def _gen_stv_rt(rng, n):
     yield from _gen_stv_many(rng)
+    yield from _gen_stv_below_one(rng)
     plain = [x for x in IO.NAMES_PLAIN + IO.NAMES_RICH if '#' not in x and x == x.strip() and x and _initials(x)]
     for k in range(n):
         r = rng.random()
@@ -850,6 +931,17 @@ def _gen_stv_text(rng, n):
     import warnings
     for t in STV_HANDMADE:
         yield {'op': 'stv_text', 'text': t, '_tags': ['stv_text', 'mut_handmade'], '_origin': 'handmade'}
+    import votelib.component.quota as vq
+    for q in sorted(vq.QUOTAS) + ['nosuch', '7', 'mandatory']:      # the model's list of quota names against the registry
+        for extra in ('', 'quota=mandatory\n', 'seats=2\nrandom=non\ntitle=T\n'):
+            yield {'op': 'stv_text', 'text': f'method=BC\nquota={q}\n{extra}candidate=a A\nballots=1\na\nend\n',
+                   '_tags': ['stv_text', 'stv_quota_registry'], '_origin': 'quota_registry'}
+    for t in ('method=GPCA2000\ncandidate=a A\nballots=1\na\nend\n', 'method=BC\nquota=droop\nseats=-1\nballots=0\nend\n',
+              'method=BC\nquota=droop\nseats=\nrandom=\ntitle=\nballots=0\nend\n', 'method=\nquota=droop\nballots=0\nend\n',
+              'method=BC\nquota=mandatory\nquota=mandatory\nballots=0\nend\n', 'method=BC\nmethod=BC\nquota=droop\nballots=0\nend\n',
+              'method=BC\nquota=droop\nquota=mandatory\nquota=x\nballots=0\nend\n', 'method=BC\nquota=hare\nquota=droop\nballots=0\nend\n',
+              'method=BC\nquota=droop\nballots=zz\nfoo=1\n', 'method=BC\nquota=droop\nfoo=1\nballots=zz\n'):
+        yield {'op': 'stv_text', 'text': t, '_tags': ['stv_text', 'stv_header_directed'], '_origin': 'header_directed'}
     plain = [x for x in IO.NAMES_PLAIN if True]
     for k in range(n):
         doc = IO.gen_doc(rng, names=plain, title='T', weights=('int',))
